@@ -286,9 +286,12 @@ RSpecQuiet == RInit /\ [][RStep]_rvars
 
 \* VIEW: the lifecycle instance abstracts from the content of the program (and from the ghost state), so that the
 \* bounded call graph is explored per abstract lifecycle state; program instances keep the whole state
+\* a bake was refused earlier (declared but unused) and the recipe went on: part of the view of a program instance, so that
+\* programs continued after a refused bake are explored as well (the refusal must have changed nothing: C16, C09, C15)
+BakeRefusedBefore == ~rs.locked /\ \E i \in DOMAIN rs.calls : rs.calls[i].call = "bake"
 RView == IF Life
          THEN <<rs.decl, rs.used, rs.stages, rs.cur, rs.curStart, rs.locked, rs.dead, Len(rs.prog), rs.doomed > 0>>
-         ELSE <<ves, rs.decl, rs.used, rs.prog, rs.stages, rs.cur, rs.curStart, rs.locked, rs.dead, rs.doomed>>
+         ELSE <<ves, rs.decl, rs.used, rs.prog, rs.stages, rs.cur, rs.curStart, rs.locked, rs.dead, rs.doomed, BakeRefusedBefore>>
 
 RBound == DenOK
 
